@@ -114,25 +114,29 @@ def random_event(rng, gd, cls=None, max_items=3):
 def var_of(conj):
     from y0.dsl import CounterfactualVariable, Intervention, Variable
 
+    from .graphs import fresh
+
     name, world, _ = conj
     if world:
-        return CounterfactualVariable(name=name, star=None,
-                                      interventions=frozenset(Intervention(n, bool(s)) for n, s in world))
-    return Variable(name)
+        return CounterfactualVariable(name=fresh(name), star=None,
+                                      interventions=frozenset(Intervention(fresh(n), bool(s)) for n, s in world))
+    return Variable(fresh(name))
 
 
 def to_event(ev):
     """dict[Variable, Intervention] as y0's ID*/cg functions take it."""
     from y0.dsl import Intervention
+    from .graphs import fresh
 
-    return {var_of(c): Intervention(c[0], bool(c[2])) for c in ev}
+    return {var_of(c): Intervention(fresh(c[0]), bool(c[2])) for c in ev}
 
 
 def to_pairs(ev):
     """list[(Variable, Intervention)] as the counterfactual-transport functions take it."""
     from y0.dsl import Intervention
+    from .graphs import fresh
 
-    return [(var_of(c), Intervention(c[0], bool(c[2]))) for c in ev]
+    return [(var_of(c), Intervention(fresh(c[0]), bool(c[2]))) for c in ev]
 
 
 def from_event(event) -> list:
